@@ -432,9 +432,11 @@ func c09Limits(t *Trace, l *Layout, st *Stats) *Violation {
 		lims = append(lims, lim{"section=max", ReadOpts{ZeroEOF: zero, MaxSection: maxSec}, true, nil})
 		lims = append(lims, lim{"section=max+1", ReadOpts{ZeroEOF: zero, MaxSection: maxSec - 1}, false, verifbridge.ErrSectionTooLarge})
 	}
+	// limits configured as exactly 0: nothing fits, every entry point refuses the header
+	lims = append(lims, lim{"limits=0", ReadOpts{ZeroEOF: zero, ZeroLimits: true}, false, verifbridge.ErrHeaderTooLarge})
 	for _, lm := range lims {
 		for _, entry := range []string{"blockreader", "newreader", "v1", "readonly", "openreadable", "loadindex:sorted"} {
-			if entry == "v1" && (l.Spec.V2 || len(l.Roots) == 0) {
+			if entry == "v1" && (l.Spec.V2 || len(l.Roots) == 0 || lm.opts.ZeroLimits) {
 				continue
 			}
 			if lm.opts.MaxSection > 0 && (entry == "loadindex:sorted") {
@@ -463,8 +465,8 @@ func c09LimitCase(pt *Trace, l *Layout, st *Stats) *Violation {
 		opts   ReadOpts
 		accept bool
 		want   error
-	}{what, opts, !strings.HasSuffix(what, "+1"), verifbridge.ErrSectionTooLarge}
-	if strings.HasPrefix(what, "header") {
+	}{what, opts, strings.HasSuffix(what, "=max"), verifbridge.ErrSectionTooLarge}
+	if strings.HasPrefix(what, "header") || strings.HasPrefix(what, "limits=0") {
 		lm.want = verifbridge.ErrHeaderTooLarge
 	}
 	sectionCase := lm.opts.MaxSection > 0
@@ -847,6 +849,11 @@ func allocSite(f func()) string {
 				fn = strings.TrimPrefix(fn, "github.com/ipld/go-car/")
 				fn = strings.TrimPrefix(fn, "github.com/ipfs/")
 				fn = strings.TrimPrefix(fn, "github.com/")
+				if strings.HasPrefix(fn, "polydawn/refmt/") {
+					// the CBOR decoder of the CARv1 header allocates declared lengths in several of its
+					// functions (Readn, Readnzc, NewUnmarshaller ...): one site, named by the module
+					return "polydawn/refmt"
+				}
 				return fn
 			}
 		}
